@@ -15,11 +15,11 @@ one() {
     if [ -n "$props" ]; then st=detected; else st=silent; fi
   fi
   obl=$(echo "$o" | grep -E '^(VIOLATED|UNDECIDED)' | awk '{print $2}' | sort -u | head -4 | tr '\n' ' ')
-  printf "%s\t%s\t%s\t%s\n" "$n" "$st" "$props" "$obl" >> $dir/results.tsv
+  printf "%s\t%s\t%s\t%s\n" "$n" "$st" "$props" "$obl" >> ${OUT:-$dir/results.tsv}
   rm -rf $v
 }
 export -f one
-: > $dir/results.tsv
-jq -r '[.n,.file]|@tsv' $dir/index.jsonl | xargs -P $par -L 1 bash -c 'one $0 $1 '"$dir $bin"
-sort -n $dir/results.tsv -o $dir/results.tsv
-cut -f2 $dir/results.tsv | sort | uniq -c
+: > ${OUT:-$dir/results.tsv}
+jq -r '[.n,.file]|@tsv' ${INDEX:-$dir/index.jsonl} | xargs -P $par -L 1 bash -c 'one $0 $1 '"$dir $bin"
+sort -n ${OUT:-$dir/results.tsv} -o ${OUT:-$dir/results.tsv}
+cut -f2 ${OUT:-$dir/results.tsv} | sort | uniq -c
